@@ -4,6 +4,7 @@ EXTENDS DataShard
 
 \* ---- scenario library (selected with  Prog <- MC_Prog_xxx  etc. in the cfg) ----
 App(f)  == [t |-> "append", add |-> <<f>>]
+AppPre(f) == [t |-> "append", add |-> <<f>>, pre |-> TRUE]     \* Table.append_data([DataFile]) of a file built beforehand
 App2(f, g) == [t |-> "append", add |-> <<f, g>>]
 Del(S)  == [t |-> "delete", del |-> S]
 Exp(c)  == [t |-> "expire", cutoff |-> c]
@@ -17,6 +18,7 @@ AG == {"c1", "g1"}
 Role_G == [a \in AG |-> IF a = "g1" THEN "collector" ELSE "committer"]
 Idx_G == [a \in AG |-> IF a = "c1" THEN 1 ELSE 2]
 Sep_G == [a \in AG |-> a]
+Prog_GPre == [a \in AG |-> IF a = "c1" THEN <<AppPre(971)>> ELSE <<GC(10)>>]
 Prog_GApp == [a \in AG |-> IF a = "c1" THEN <<App(1)>> ELSE <<GC(10)>>]
 Prog_GDel == [a \in AG |-> IF a = "c1" THEN <<Del({961})>> ELSE <<GC(10)>>]
 Prog_GExp == [a \in AG |-> IF a = "c1" THEN <<Exp(2), App(1)>> ELSE <<GC(10)>>]
@@ -31,6 +33,7 @@ Role_C1 == [a \in A1 |-> "committer"]
 Idx_1 == [a \in A1 |-> 1]
 Sep_1 == [a \in A1 |-> a]
 Prog_1AppCreateApp == [a \in A1 |-> <<App(1), Create, App(2)>>]
+Prog_1PreThenApp == [a \in A1 |-> <<AppPre(971), App(2)>>]
 Prog_1AppThenApp == [a \in A1 |-> <<App(1), App(2)>>]
 Prog_1AppExplicit == [a \in A1 |-> <<[t |-> "append", add |-> <<1>>, style |-> "explicit"], [t |-> "append", add |-> <<2>>, style |-> "explicit"]>>]
 Prog_1DelThenApp == [a \in A1 |-> <<Del({961}), App(2)>>]
